@@ -5,6 +5,11 @@ HERE = os.path.dirname(os.path.dirname(os.path.abspath(__file__)))
 
 # id -> (engine, category, technique, level text, level note, design ref)
 CHECKS = {
+ "C19": ("sched", "exploration",
+   "harness-owned scheduler over hand-polled ceremonies: complete DFS over all schedules of small configurations plus proptest-generated schedules; invariant oracle over results, final store and the store event log",
+   "Two or three real authenticators share one Arc<Mutex<_>> / Arc<RwLock<_>> store (inner store suspends inside calls so guards are held across suspensions, user validation suspends too). Every decision 'poll the k-th runnable ceremony' is a choice point; all schedules of ~400 fixed configurations (all pair types x suspension counts, some triples) are enumerated by prefix replay, larger configurations get generated shrinkable schedules. Judged: no deadlock (nobody runnable while ceremonies unfinished), every successful registration's credential present at the end, same-credential assertions pairwise distinct with the largest equal to the stored value, no unexpected failures.",
+   "known finding D13 (overlapping lookup..update windows of two assertions on one credential) is recognised from the tagged store event log and counted; the same symptom without overlap, any deadlock and any lost credential are violations. Determinism relies on the harness owning all suspension points",
+   "DESIGN.md §4 C19"),
  "C07": ("faults", "fault_enumeration",
    "fault enumeration over generated scenarios: every store call failing with each status of a set, cancellation after every number of polls, plus proptest combinations; snapshot/log invariant oracle",
    "For each generated scenario (create / assert / U2F register with extensions, counters, lists, error-inducing options, suspending doubles) the harness first records the fault-free run, then enumerates completely (a) every fallible store call of that run failing with each of seven status bytes and (b) dropping the operation after every possible number of polls, and adds generated combinations of 2-3 faults with cancellation. Store snapshots and the store's call log decide: failed registration => store identical; cancelled registration => identical or plus exactly one complete record; success => the store accepted the save/the exact counter value first; failed/cancelled assertion => only the selected counter may have advanced by one; an injected save/update error never yields success.",
